@@ -34,7 +34,7 @@ Fixpoint lookups_alike (a b : list lookup) : bool :=
   | _, _ => false
   end.
 
-(* `incl`, `delp`, `eskip`, `isng`, `imul`, `ilig`: which of the repairs of 2026-09 this build of fea-rs
+(* `incl`, `delp`, `eskip`, `refc`, `mixs`, `isng`, `imul`, `ilig`: which of the repairs / specification readings this build of fea-rs
    has (numeric ranges, `by NULL` rules, empty named lookups in contextual rules, the three inline-rule
    defects), probed by the harness on fixed inputs; all false on the unrepaired tree, all true after.
    fea-rs accepted the file.
@@ -43,12 +43,12 @@ Fixpoint lookups_alike (a b : list lookup) : bool :=
    (B) the property predicate (real tables vs. source semantics under the SPECIFICATION's range
        reading) has the value the harness computed;
    (C) the harness's own apply_ot / interp_fea give the model's results on the samples. *)
-Definition case_ok (incl delp eskip isng imul ilig : bool) (gm : list str) (p : prog) (real : otfont)
+Definition case_ok (incl delp eskip refc mixs isng imul ilig : bool) (gm : list str) (p : prog) (real : otfont)
            (sels : list selection)
            (alphabet : list glyph) (n : nat) (extra : list (list glyph)) (pred_ok : bool)
            (samples : list (nat * list glyph * list pitem * list pitem)) : bool :=
-  match elab_gen incl gm delp eskip p, elab_spec gm p with
-  | Some e, Some espec =>
+  match elab_gen incl gm delp eskip refc mixs p with
+  | Some e =>
       let strs := strings_upto alphabet n ++ extra in
       let cm := compile_mini_g isng imul ilig e in
       behav_eq (apply_ot cm) (apply_ot real) sels strs
@@ -56,19 +56,25 @@ Definition case_ok (incl delp eskip isng imul ilig : bool) (gm : list str) (p : 
                              && nats_eqb (active_lookups (f_gpos cm) sel) (active_lookups (f_gpos real) sel)) sels
       && lookups_alike (ot_lookups (f_gsub cm)) (ot_lookups (f_gsub real))
       && lookups_alike (ot_lookups (f_gpos cm)) (ot_lookups (f_gpos real))
-      && Bool.eqb (behav_eq (apply_ot real) (interp_fea espec) sels strs) pred_ok
-      && forallb (fun '(i, s, out_real, out_src) =>
-                    match nth_error sels i with
-                    | Some sel => pitems_eqb (apply_ot real sel s) out_real
-                                  && pitems_eqb (interp_fea espec sel s) out_src
-                    | None => false
-                    end) samples
-  | _, _ => false
+      && match elab_spec gm p with
+         | Some espec =>
+             Bool.eqb (behav_eq (apply_ot real) (interp_fea espec) sels strs) pred_ok
+             && forallb (fun '(i, s, out_real, out_src) =>
+                           match nth_error sels i with
+                           | Some sel => pitems_eqb (apply_ot real sel s) out_real
+                                         && pitems_eqb (interp_fea espec sel s) out_src
+                           | None => false
+                           end) samples
+         | None =>
+             (* the specification's reading rejects the file although fea-rs compiled it: the predicate fails *)
+             negb pred_ok
+         end
+  | None => false
   end.
 
 (* fea-rs rejected the file with diagnostics: so does the walk *)
-Definition case_rejected (incl delp eskip : bool) (gm : list str) (p : prog) : bool :=
-  match elab_gen incl gm delp eskip p with None => true | Some _ => false end.
+Definition case_rejected (incl delp eskip refc mixs : bool) (gm : list str) (p : prog) : bool :=
+  match elab_gen incl gm delp eskip refc mixs p with None => true | Some _ => false end.
 
 (* glyph ranges alone *)
 Fixpoint strs_eqb (a b : list str) : bool :=
